@@ -93,11 +93,13 @@ class C09(hc.PProp):
     sim_limit_s = 600
 
     def plan(self, rng, tier, index):
+        reqlim = rng.choice([8, 64])
         plan = hc.std_plan(rng, {'cache': rng.choice(['none', 'mem', 'mem', 'rock', 'ufs']), 'lines': ['request_timeout 5 seconds', 'read_timeout 8 seconds', 'client_lifetime 20 seconds',
                                  'connect_timeout 3 seconds', 'relaxed_header_parser %s' % rng.choice(['on', 'on', 'off']), 'pipeline_prefetch %d' % rng.choice([0, 1, 3]),
-                                 'request_header_max_size %d KB' % rng.choice([8, 64]), 'reply_header_max_size %d KB' % rng.choice([8, 64])]})
+                                 'request_header_max_size %d KB' % reqlim, 'reply_header_max_size %d KB' % rng.choice([8, 64])]})
+        plan['reqlim_kb'] = reqlim
         n = rng.randint(8, 24)
-        plan['victims'] = [{'id': index * 100 + k, 'side': rng.choice(['req', 'req', 'resp']), 'rounds': rng.randint(1, 8), 'seed': rng.getrandbits(32),
+        plan['victims'] = [{'id': index * 100 + k, 'side': rng.choice(['req', 'req', 'resp', 'req', 'resp', 'reqlimit']), 'rounds': rng.randint(1, 8), 'seed': rng.getrandbits(32),
                             'seg': rng.choice(['rand', 'whole', 'byte']), 'n': rng.randint(1, 3), 'after': rng.choice(['close', 'wait', 'reset'])} for k in range(n)]
         plan['bystanders'] = [{'id': index * 100 + 50 + k, 'size': hc.pick_size(rng, big_ok=False, max_size=30000), 'start': rng.choice([0, 1000, 100000])} for k in range(rng.randint(2, 4))]
         plan['probe_id'] = index * 100 + 99
@@ -115,7 +117,21 @@ class C09(hc.PProp):
             name = 'v%d' % v['id']; names.append(name)
             cl = scn.client(name, start=rng.choice([0, 0, 500, 20000]))
             cl.add('connect %s %d' % (hc.SQUID_IP, hc.SQUID_PORT))
-            if v['side'] == 'req':
+            if v['side'] == 'reqlimit':
+                # a complete, well-formed request head whose size is at / just around request_header_max_size, delivered so that the segment which
+                # crosses the limit is also the one that carries the terminating empty line (possibly followed by nothing at all)
+                limit = plan.get('reqlim_kb', 64) * 1024
+                total = limit + rng.choice([-600, -2, -1, 0, 1, 2, 300, 600, 5000])
+                line = b'GET http://10.0.0.1/h%d HTTP/1.1\r\nHost: 10.0.0.1\r\nX-Sim-Req: %d\r\n' % (v['id'], v['id'])
+                pad = b''
+                while len(line) + len(pad) + 2 < total - 30:
+                    n = min(rng.choice([60, 200, 900]), total - 30 - len(line) - len(pad) - 2)
+                    pad += b'X-P%d: ' % (len(pad) % 997) + b'p' * max(1, n - 12) + b'\r\n'
+                head = line + pad
+                head += b'X-End: ' + b'e' * max(1, total - len(head) - 11) + b'\r\n\r\n'
+                cut = len(head) - rng.choice([4, 5, 100, 600, 1500])
+                cl.add('send %s seg whole' % tok(head[:cut])); cl.add('wait %d' % rng.choice([1000, 50000, 300000])); cl.add('send %s seg whole' % tok(head[cut:]))
+            elif v['side'] == 'req':
                 stream = b''.join(base_request(rng, v['id']) for _ in range(v['n']))
                 stream = mutate(stream, rng, v['rounds'])
                 if len(stream) > 3000:
